@@ -167,6 +167,13 @@ func (w *W) Sample(v interface{}) {
 	w.mu.Unlock()
 }
 
+// SampleDue is true for the first evaluation and then every stride-th one, while samples are still wanted.
+func (w *W) SampleDue(stride int64) bool {
+	w.mu.Lock()
+	defer w.mu.Unlock()
+	return len(w.res.Samples) < maxSamples && w.res.Evaluations%stride == 1
+}
+
 func (w *W) WantSample() bool {
 	w.mu.Lock()
 	defer w.mu.Unlock()
